@@ -461,5 +461,5 @@ pub fn run_check(tier: &str) -> i32 {
         stub: "CNB lifecycle (phase invocation, restore between builds), buildpack author code (scripted)",
         needs_shim_in_worker: false,
     };
-    common::run_check(&spec, tier, &|_, _| {})
+    common::run_check(&spec, tier, &|_, _| 0)
 }
